@@ -620,8 +620,23 @@ func cfgGME(c *cfgCase, rng *vRand, cfg *pb.ApiConfig) {
 		return
 	}
 	// an update must not touch the (new) caller object either
+	// (the update's own config section is not the pool configuration: that was fixed
+	// at construction - an endpoints-only update carries none, or a different one)
 	cfg2 := proto.Clone(before).(*pb.ApiConfig)
-	snap := proto.Clone(cfg2)
+	switch rng.Intn(3) {
+	case 0:
+		cfg2 = nil
+	case 1:
+		if cfg2.ChannelPool == nil {
+			cfg2.ChannelPool = &pb.ChannelPoolConfig{}
+		}
+		cfg2.ChannelPool.MaxSize += 3
+		cfg2.Method = append(cfg2.Method, &pb.MethodConfig{Name: []string{"/late/method"}, Affinity: &pb.AffinityConfig{Command: pb.AffinityConfig_BOUND, AffinityKey: "k"}})
+	}
+	var snap *pb.ApiConfig
+	if cfg2 != nil {
+		snap = proto.Clone(cfg2).(*pb.ApiConfig)
+	}
 	opts2 := &GCPMultiEndpointOptions{GRPCgcpConfig: cfg2, MultiEndpoints: map[string]*multiendpoint.MultiEndpointOptions{"default": {Endpoints: []string{"e2", "e3"}}}, Default: "default", DialFunc: dial}
 	h2 := vStartOp(func() { err = gme.UpdateMultiEndpoints(opts2) })
 	if st := h2.awaitDone(30 * time.Second); st != vDone || h2.panicked {
@@ -629,12 +644,16 @@ func cfgGME(c *cfgCase, rng *vRand, cfg *pb.ApiConfig) {
 		return
 	}
 	c.out.hit("C17.gme-update")
-	if !proto.Equal(cfg2, snap) {
+	if cfg2 != nil && !proto.Equal(cfg2, snap) {
 		c.report("C17.caller-object-mutated", "gme-update", "UpdateMultiEndpoints modified the caller's configuration")
 		return
 	}
-	if !proto.Equal(gme.GCPConfig(), before) {
-		c.report("C17.gme-config", "after-update", "GCPConfig() changed after UpdateMultiEndpoints")
+	if err != nil {
+		c.report("C17.gme-config", "update-rejected", "an endpoints-only UpdateMultiEndpoints was rejected: %v", err)
+		return
+	}
+	if after := gme.GCPConfig(); !proto.Equal(after, before) {
+		c.report("C17.gme-config", "after-update", "GCPConfig() changed after UpdateMultiEndpoints: %v, the configuration fixed at construction is %v", after, before)
 		return
 	}
 	c.out.nontrivial(vHashStrings([]string{"gme", before.String()}))
